@@ -68,7 +68,10 @@ class RawModule:
 
 
 RAW_MODULES = [RawModule("m0_holder", os.path.join(VERIF, "harness", "bridge_support", "m0_holder.rs"),
-                         {"c03_stored_fnmut_callback": ["C03", "C01"], "c03_stored_fn_callback": ["C03", "C01"]})]
+                         {"c03_stored_fnmut_callback": ["C03", "C01"], "c03_stored_fn_callback": ["C03", "C01"]}),
+               RawModule("m0_rawwrite", os.path.join(VERIF, "harness", "bridge_support", "m0_rawwrite.rs"),
+                         {"c12_flush_with_value_return": ["C12"], "c12_flush_with_result_value_return": ["C12"],
+                          "c12_flush_plain": ["C12"], "c12_flush_result_unit": ["C12"]})]
 
 
 def modules_for(tier_, seed_):
@@ -123,12 +126,12 @@ DIALECTS = {
     "dart": {"backend": "dart", "extra": [], "front": "dartfront",
              "dialect": {"name": "dart", "mod": "md", "flag": "isOk", "slice": ("_data", "_length"), "prefix": "c07d", "tags": ["C07"]},
              # known crash of the Dart back end (unreachable!() for Option<slice> parameters): kept out of the profile
-             "pred": lambda m: not any(isinstance(t, bridgegen.Callback) or bridgegen.any_type(t, lambda x: isinstance(x, bridgegen.Opt) and isinstance(x.inner, (bridgegen.Slice, bridgegen.Str))) or isinstance(t, bridgegen.StrSlice)
+             "pred": lambda m: not any(isinstance(t, bridgegen.Callback) or bridgegen.any_type(t, lambda x: isinstance(x, bridgegen.Opt) and isinstance(x.inner, (bridgegen.Slice, bridgegen.Str, bridgegen.StrSlice))) or isinstance(t, bridgegen.StrSlice)
                                        for _, t in m.params)},
     "kotlin": {"backend": "kotlin", "extra": ["--config", "kotlin.domain=dev.verif", "--config", "lib_name=bridge"], "front": "kotlinfront",
                "dialect": {"name": "kotlin", "mod": "mk", "flag": "isOk", "slice": ("data", "len"), "prefix": "c07k", "tags": ["C07"]},
                # Option<slice> parameters hit an unreachable!() in kotlin/mod.rs::gen_native_type_name (a C15 matter): kept out of the profile
-               "pred": lambda m: not any(isinstance(t, (bridgegen.Callback, bridgegen.StrSlice)) or bridgegen.any_type(t, lambda x: isinstance(x, bridgegen.Opt) and isinstance(x.inner, (bridgegen.Slice, bridgegen.Str)))
+               "pred": lambda m: not any(isinstance(t, (bridgegen.Callback, bridgegen.StrSlice)) or bridgegen.any_type(t, lambda x: isinstance(x, bridgegen.Opt) and isinstance(x.inner, (bridgegen.Slice, bridgegen.Str, bridgegen.StrSlice)))
                                          for _, t in m.params)},
 }
 
